@@ -3,6 +3,6 @@
 check("C12", "model_checking",
       "TLC enumerates the complete (rule list x packet) space of Firewall.tla's two families and proves first-match/default-accept/"
       "refusal/notice properties on it; every vector is then replayed through the real parser and a real node at origin, transit and "
-      "destination positions and the observable outcome (delivery, forwarding, 'blocked by firewall' notice, silence) must equal the spec's.",
+      "destination positions and the observable outcome (delivery, forwarding, 'blocked by firewall' notice, silence) must equal the spec's - also for the same packet without hops left (the rules decide first, then expiry) and for service names with an inner zero byte.",
       "Trusted: Go regexp; the tabulated match languages for the listed patterns; hook events for negative observation. Patterns outside the table are not covered.",
       "TLA+ decision-table spec, TLC exhaustive enumeration, vector replay into real node (B1)", "E1 nodeconf / E4 tables", "DESIGN.md section 6 C12")
